@@ -1,4 +1,4 @@
-import Pyrealb.Model.LemmatizeWF
+import Pyrealb.Lemmas.Lemmatize
 /-! Helper lemmas of `expandDecl_sound` (C18): the declension model (C02) evaluated on a terminal whose table, stem
     and request-relevant properties are known; the options `genExp` infers applied to a fresh terminal. -/
 namespace Pyrealb.Lemmatize
@@ -196,5 +196,444 @@ theorem applyOpt_valid {t : Term} {name : Str} {v : OV}
     obtain ⟨x, rfl⟩ := strs_contains hval
     refine ⟨_, applyOpt_str (Or.inr (Or.inr rfl)) hv hval hpos, ?_⟩
     simp [setOptProp, Term.getG, Term.getN, OV.toFV]
+
+/-- the option calls of a valid option list applied to a terminal -/
+theorem applyOpts_valid : ∀ (opts : List (Str × OV)) (t : Term), optsValid t.pos opts = true →
+    ∃ t1, applyOpts t opts = .ok t1 ∧ t1.pos = t.pos ∧ t1.lang = t.lang ∧ t1.lemma = t.lemma ∧ t1.tab = t.tab ∧
+      t1.stem = t.stem ∧ t1.pOwn = t.pOwn ∧ t1.warns = t.warns ∧
+      t1.getG = afterOpts "g" opts t.getG ∧ t1.getN = afterOpts "n" opts t.getN ∧ t1.pF = afterF opts t.pF
+  | [], t, _ => ⟨t, rfl, rfl, rfl, rfl, rfl, rfl, rfl, rfl, rfl, rfl, rfl⟩
+  | (k, v) :: r, t, h => by
+    unfold optsValid at h
+    rw [List.all_cons, Bool.and_eq_true] at h
+    obtain ⟨t', ht', hpos, hlang, hlem, htab, hstem, hown, hw, hg, hn, hf⟩ := applyOpt_valid (t := t) (name := k) (v := v) h.1
+    have hr : optsValid t'.pos r = true := by rw [hpos]; exact h.2
+    obtain ⟨t1, ht1, hpos1, hlang1, hlem1, htab1, hstem1, hown1, hw1, hg1, hn1, hf1⟩ := applyOpts_valid r t' hr
+    refine ⟨t1, ?_, hpos1.trans hpos, hlang1.trans hlang, hlem1.trans hlem, htab1.trans htab, hstem1.trans hstem,
+      hown1.trans hown, hw1.trans hw, ?_, ?_, ?_⟩
+    · simp [applyOpts, ht', bind, Except.bind, ht1]
+    · rw [hg1, hg]; simp [afterOpts, List.foldl_cons]
+    · rw [hn1, hn]; simp [afterOpts, List.foldl_cons]
+    · rw [hf1, hf]; simp [afterF, List.foldl_cons]
+
+theorem afterF_none (opts : List (Str × OV)) (acc : Option OV) :
+    afterF opts (acc.map OV.toFV) =
+      (opts.foldl (fun acc o => if o.1 = "f".toList then some o.2 else acc) acc).map OV.toFV := by
+  induction opts generalizing acc with
+  | nil => rfl
+  | cons o r ih =>
+    simp only [afterF, List.foldl_cons]
+    by_cases h : o.1 = "f".toList
+    · simp only [h, if_true]
+      exact ih (some o.2)
+    · simp only [h, if_false]
+      exact ih acc
+
+theorem afterF_optVal (opts : List (Str × OV)) : afterF opts none = (optVal "f" opts).map OV.toFV :=
+  afterF_none opts none
+
+theorem declLoop_mem {lang : Lang} {pos lemma radical : Str} {entry : PosEntry} :
+    ∀ (rows : List Row) (seen : List Str) (l : List Pair),
+    declLoop lang pos lemma entry radical rows seen = .ok l →
+    ∀ p ∈ l, ∃ d ∈ firstRows rows seen, ∃ e, genExp lang d pos lemma entry = .ok (some e) ∧ p = (radical ++ d.val, e)
+  | [], seen, l, h, p, hp => by
+    simp only [declLoop, Except.ok.injEq] at h
+    subst h; cases hp
+  | d :: ds, seen, l, h, p, hp => by
+    unfold declLoop at h
+    unfold firstRows
+    by_cases hs : seen.contains d.val = true
+    · simp only [hs, if_true] at h ⊢
+      exact declLoop_mem ds seen l h p hp
+    · simp only [hs] at h ⊢
+      simp only [Bool.false_eq_true, if_false] at h ⊢
+      split at h
+      · cases h
+      · rename_i r hr
+        split at h
+        · cases h
+        · rename_i rest hrest
+          cases r with
+          | none =>
+            simp only [Except.ok.injEq] at h
+            subst h
+            obtain ⟨d', hd', e, he, hpe⟩ := declLoop_mem ds _ rest hrest p hp
+            exact ⟨d', List.mem_cons_of_mem _ hd', e, he, hpe⟩
+          | some e =>
+            simp only [Except.ok.injEq] at h
+            subst h
+            rcases List.mem_cons.mp hp with hp | hp
+            · exact ⟨d, List.mem_cons_self, e, hr, hp⟩
+            · obtain ⟨d', hd', e', he, hpe⟩ := declLoop_mem ds _ rest hrest p hp
+              exact ⟨d', List.mem_cons_of_mem _ hd', e', he, hpe⟩
+
+/-- the options `genExp` infers for N, A, Adv do not depend on the lemma -/
+def relemma (l : Str) (e : Exp) : Exp := { e with lemma := l }
+
+theorem genExpN_relemma (lang : Lang) (d : Row) (e : Exp) (lg cn : Option LV) (l : Str) :
+    genExpN lang d (relemma l e) lg cn = (genExpN lang d e lg cn).map (Option.map (relemma l)) := by
+  unfold genExpN
+  cases lang <;> simp only [] <;> repeat' split
+  all_goals first | rfl | (simp [Except.map, relemma, Exp.opt])
+
+theorem genExpA_relemma (lang : Lang) (d : Row) (e : Exp) (l : Str) :
+    genExpA lang d (relemma l e) = (genExpA lang d e).map (relemma l) := by
+  unfold genExpA
+  cases lang <;> simp only [] <;> repeat' split
+  all_goals first | rfl | (simp [Except.map, relemma, Exp.opt])
+
+theorem genExpCore_relemma (lang : Lang) (d : Row) {pos : Pos} (hcls : pos = .N ∨ pos = .A ∨ pos = .Adv)
+    (l : Str) (lg cn : Option LV) :
+    genExpCore lang d pos.name l lg cn = (genExpCore lang d pos.name [] lg cn).map (Option.map (relemma l)) := by
+  have hinit : ∀ p : Str, expInit p l = relemma l (expInit p []) := fun _ => rfl
+  rcases hcls with rfl | rfl | rfl
+  · simp only [genExpCore, Pos.name, if_true]
+    rw [hinit, genExpN_relemma]
+  · have h1 : ¬ ("A".toList = "N".toList) := by decide
+    have h2 : ¬ ("A".toList = "Pro".toList ∨ "A".toList = "D".toList) := by decide
+    simp only [genExpCore, Pos.name, h1, h2, if_false, if_true]
+    rw [hinit, genExpA_relemma]
+    cases genExpA lang d (expInit "A".toList []) <;> rfl
+  · have h1 : ¬ ("Adv".toList = "N".toList) := by decide
+    have h2 : ¬ ("Adv".toList = "Pro".toList ∨ "Adv".toList = "D".toList) := by decide
+    have h3 : ¬ ("Adv".toList = "A".toList) := by decide
+    simp only [genExpCore, Pos.name, h1, h2, h3, if_false, if_true]
+    cases lang
+    · cases d.get .f <;> rfl
+    · rfl
+
+theorem opt_pos (e : Exp) (n : String) (v : OV) : (e.opt n v).pos = e.pos := rfl
+theorem opt_lemma (e : Exp) (n : String) (v : OV) : (e.opt n v).lemma = e.lemma := rfl
+
+theorem genExpN_pos {lang : Lang} {d : Row} {e e' : Exp} {lg cn : Option LV}
+    (h : genExpN lang d e lg cn = .ok (some e')) : e'.pos = e.pos := by
+  unfold genExpN at h
+  cases lang <;> simp only [] at h <;> repeat' split at h
+  all_goals (cases h <;> first | rfl | (split <;> rfl) | (split <;> split <;> rfl))
+
+theorem genExpA_pos {lang : Lang} {d : Row} {e e' : Exp} (h : genExpA lang d e = .ok e') : e'.pos = e.pos := by
+  unfold genExpA at h
+  cases lang <;> simp only [] at h <;> repeat' split at h
+  all_goals (cases h <;> first | rfl | (split <;> rfl) | (split <;> split <;> rfl))
+
+theorem firstRows_sub : ∀ (rows : List Row) (seen : List Str) (d : Row), d ∈ firstRows rows seen → d ∈ rows
+  | [], _, d, h => by cases h
+  | r :: rs, seen, d, h => by
+    unfold firstRows at h
+    split at h
+    · exact List.mem_cons_of_mem _ (firstRows_sub rs seen d h)
+    · rcases List.mem_cons.mp h with h | h
+      · exact h ▸ List.mem_cons_self
+      · exact List.mem_cons_of_mem _ (firstRows_sub rs _ d h)
+
+theorem stripLead_noLead {x : Str} (h : noLeadSpace x = true) : Decl.stripLead x = x := by
+  cases x with
+  | nil => rfl
+  | cons c r =>
+    simp only [noLeadSpace, List.head?_cons, bne_iff_ne, ne_eq, Option.some.injEq] at h
+    unfold Decl.stripLead
+    split
+    · rename_i r' heq
+      cases heq
+      exact absurd rfl h
+    · rfl
+
+theorem stem_append_ending {x suf : Str} (h : endsWith x suf = true) : dropRight x suf.length ++ suf = x := by
+  unfold endsWith at h
+  simp only [Bool.and_eq_true, decide_eq_true_eq, beq_iff_eq] at h
+  unfold dropRight
+  have := List.take_append_drop (x.length - suf.length) x
+  rw [h.2] at this
+  exact this
+
+theorem genExpCore_pos {lang : Lang} {d : Row} {pos : Pos} (hcls : pos = .N ∨ pos = .A ∨ pos = .Adv)
+    {l : Str} {lg cn : Option LV} {e : Exp} (h : genExpCore lang d pos.name l lg cn = .ok (some e)) :
+    e.pos = pos.name := by
+  rcases hcls with rfl | rfl | rfl
+  · simp only [genExpCore, Pos.name, if_true] at h
+    exact genExpN_pos h
+  · have h1 : ¬ ("A".toList = "N".toList) := by decide
+    have h2 : ¬ ("A".toList = "Pro".toList ∨ "A".toList = "D".toList) := by decide
+    simp only [genExpCore, Pos.name, h1, h2, if_false, if_true] at h
+    cases hg : genExpA lang d (expInit "A".toList l) with
+    | error c => rw [hg] at h; cases h
+    | ok e' =>
+      rw [hg] at h
+      cases h
+      exact genExpA_pos hg
+  · have h1 : ¬ ("Adv".toList = "N".toList) := by decide
+    have h2 : ¬ ("Adv".toList = "Pro".toList ∨ "Adv".toList = "D".toList) := by decide
+    have h3 : ¬ ("Adv".toList = "A".toList) := by decide
+    simp only [genExpCore, Pos.name, h1, h2, h3, if_false, if_true] at h
+    cases lang
+    · simp only [] at h
+      split at h <;> (cases h; rfl)
+    · cases h; rfl
+
+/-- `realTerm_N` with the hypotheses in the Boolean form used by `rowOK` -/
+theorem realTerm_N' {rules : Decl.Rules} {lex : Lex} {t : Term} {name radical : Str} {tb : Table} {entry : PosEntry}
+    {lang : Lang} {val : Str}
+    (hpos : t.pos = .N) (hlang : t.lang = lang) (htab : t.tab = some name) (hstem : t.stem = some radical)
+    (hown : t.pOwn = none) (hw : t.warns = 0) (htb : lookup name rules = some tb)
+    (hlex : lexPos lex t.lemma "N".toList = some entry)
+    (hsel : selRow tb.rows [(Feat.g, dfltG t.getG), (Feat.n, dfltN t.getN)] val = true)
+    (hveto : nounOK lang (lookup "g".toList entry) (lookup "cnt".toList entry) (dfltG t.getG) (dfltN t.getN) = true) :
+    realTerm rules lex t = .ok ⟨[radical ++ val], 0⟩ := by
+  apply realTerm_N hpos hlang htab hstem hown hw htb hlex
+  · unfold selRow at hsel
+    cases hrows : tb.rows with
+    | nil => rw [hrows] at hsel; simpa [dfltG, dfltN] using hsel
+    | cons d1 ds =>
+      cases ds with
+      | nil => rw [hrows] at hsel; simpa using hsel
+      | cons d2 ds2 => rw [hrows] at hsel; simpa [dfltG, dfltN] using hsel
+  · unfold nounOK at hveto
+    cases lang with
+    | fr =>
+      simp only [] at hveto ⊢
+      cases hlg : lookup "g".toList entry with
+      | none => rw [hlg] at hveto; cases hveto
+      | some lg =>
+        rw [hlg] at hveto
+        exact ⟨lg, rfl, by simpa [dfltG] using of_decide_eq_true hveto⟩
+    | en =>
+      simp only [Bool.or_eq_true, decide_eq_true_eq] at hveto ⊢
+      rcases hveto with h | h
+      · exact Or.inl (by simpa [dfltN] using h)
+      · cases hcn : lookup "cnt".toList entry with
+        | none => rw [hcn] at h; cases h
+        | some cn =>
+          rw [hcn] at h
+          exact Or.inr ⟨cn, rfl, by simpa using h⟩
+
+theorem expandDecl_core {env : Env} {lex : Lex} {verb : Option Conj.Verb} {pos : Pos} {lemma name : Str}
+    {tb : Table} {entry : PosEntry} {c : Ctor} {l : List Pair}
+    (hcls : pos = .N ∨ pos = .A ∨ pos = .Adv)
+    (htb : lookup name env.decl = some tb) (hend : endsWith lemma tb.ending = true)
+    (hsp : noLeadSpace lemma = true)
+    (hctor : ctorOK env.decl lex env.lang pos lemma name (dropRight lemma tb.ending.length) entry c = true)
+    (hd : DistinctRows env.lang pos name tb c = true)
+    (hl : expandDeclension env.lang env.decl lemma pos.name (.str name) entry = .ok l) :
+    ∀ p ∈ l, realizeExp env lex verb p.2 = .ok (p.1, 0) := by
+  intro p hp
+  unfold expandDeclension at hl
+  simp only [htb, hend, if_true] at hl
+  obtain ⟨d, hdm, e, he, rfl⟩ := declLoop_mem _ _ _ hl p hp
+  unfold ctorOK at hctor
+  cases hmk : mkTerm env.decl lex env.lang pos lemma with
+  | error cr => simp [hmk] at hctor
+  | ok t0 =>
+    simp only [hmk, Bool.and_eq_true, decide_eq_true_eq] at hctor
+    obtain ⟨⟨⟨⟨⟨⟨⟨⟨⟨⟨⟨⟨h_lang, h_pos⟩, h_lemma⟩, h_tab⟩, h_stem⟩, h_g⟩, h_n⟩, h_own⟩, h_f⟩, h_w⟩, h_lex⟩, h_lg⟩, h_cn⟩ := hctor
+    have he' : genExpCore env.lang d pos.name lemma c.lexG c.cnt = .ok (some e) := by
+      rw [← h_lg, ← h_cn]; exact he
+    rw [genExpCore_relemma env.lang d hcls] at he'
+    cases hg0 : genExpCore env.lang d pos.name [] c.lexG c.cnt with
+    | error cr => rw [hg0] at he'; cases he'
+    | ok o0 =>
+      cases o0 with
+      | none => rw [hg0] at he'; cases he'
+      | some e0 =>
+        rw [hg0] at he'
+        simp only [Except.map, Option.map, Except.ok.injEq, Option.some.injEq] at he'
+        subst he'
+        unfold DistinctRows at hd
+        simp only [Bool.and_eq_true, List.all_eq_true] at hd
+        obtain ⟨hrsp, hall⟩ := hd
+        have hrow := hall d hdm
+        rw [hg0] at hrow
+        simp only [] at hrow
+        have hdval : noLeadSpace d.val = true := by
+          unfold rowNoLeadSpace at hrsp
+          rw [List.all_eq_true] at hrsp
+          exact hrsp d (firstRows_sub _ _ d hdm)
+        have hform := noLead_stem_append tb.ending.length hsp hdval
+        have hpos0 := genExpCore_pos hcls hg0
+        have hposV : ¬ ((relemma lemma e0).pos = "V".toList) := by
+          rw [show (relemma lemma e0).pos = e0.pos from rfl, hpos0]
+          rcases hcls with rfl | rfl | rfl <;> decide
+        have hposOf : posOf? (relemma lemma e0).pos = some pos := by
+          rw [show (relemma lemma e0).pos = e0.pos from rfl, hpos0]
+          rcases hcls with rfl | rfl | rfl <;> rfl
+        unfold realizeExp
+        simp only [hposV, if_false, hposOf]
+        unfold realize
+        simp only [show (relemma lemma e0).lemma = lemma from rfl, show (relemma lemma e0).opts = e0.opts from rfl,
+          hmk, bind, Except.bind]
+        unfold rowOK at hrow
+        rw [Bool.and_eq_true] at hrow
+        obtain ⟨hvalid, hrest⟩ := hrow
+        obtain ⟨t1, ht1, p1, p2, p3, p4, p5, p6, p7, pg, pn, pf⟩ :=
+          applyOpts_valid e0.opts t0 (by rw [h_pos]; exact hvalid)
+        rw [ht1]
+        simp only []
+        rw [h_g] at pg
+        rw [h_n] at pn
+        rw [h_f, afterF_optVal] at pf
+        have hdet : ∀ x : Str, noLeadSpace x = true → detok [x] = x := fun x hx => by
+          simp [detok, stripLead_noLead hx]
+        rcases hcls with rfl | rfl | rfl
+        · -- nouns
+          simp only [Bool.and_eq_true, beq_iff_eq] at hrest
+          obtain ⟨⟨_, hsel⟩, hveto⟩ := hrest
+          have hlexN : lexPos lex t1.lemma "N".toList = some entry := by rw [p3, h_lemma]; exact h_lex
+          rw [realTerm_N' (p1.trans h_pos) (p2.trans h_lang) (p4.trans h_tab) (p5.trans h_stem) (p6.trans h_own)
+            (p7.trans h_w) htb hlexN (by rw [pg, pn]; exact hsel) (by rw [pg, pn, h_lg, h_cn]; exact hveto)]
+          simp [hdet _ hform]
+        · -- adjectives
+          cases hlang : env.lang with
+          | fr =>
+            rw [hlang] at hrest
+            simp only [Bool.and_eq_true, beq_iff_eq] at hrest
+            obtain ⟨hnof, hsel⟩ := hrest
+            rw [hnof] at pf
+            rw [realTerm_Afr (Or.inl (p1.trans h_pos)) ((p2.trans h_lang).trans hlang) (p4.trans h_tab)
+              (p5.trans h_stem) pf (p7.trans h_w) htb (by rw [pg, pn]; exact hsel)]
+            simp [hdet _ hform]
+          | en =>
+            rw [hlang] at hrest
+            simp only [] at hrest
+            cases hov : optVal "f" e0.opts with
+            | none =>
+              rw [hov] at hrest pf
+              simp only [beq_iff_eq] at hrest
+              rw [realTerm_Aen_plain (Or.inl (p1.trans h_pos)) ((p2.trans h_lang).trans hlang) (p4.trans h_tab)
+                (p5.trans h_stem) pf (p7.trans h_w) htb]
+              have : t1.lemma = dropRight lemma tb.ending.length ++ d.val := by
+                rw [p3, h_lemma, hrest, stem_append_ending hend]
+              simp only [this]
+              simp [hdet _ hform]
+            | some fv =>
+              rw [hov] at hrest pf
+              cases fv with
+              | str fs =>
+                simp only [Bool.and_eq_true, decide_eq_true_eq, beq_iff_eq] at hrest
+                obtain ⟨⟨ha1, hb1⟩, hsel⟩ := hrest
+                rw [realTerm_Aen_f (Or.inl (p1.trans h_pos)) ((p2.trans h_lang).trans hlang) (p4.trans h_tab)
+                  (p5.trans h_stem) pf (p7.trans h_w) htb ha1 hb1 hsel]
+                simp [hdet _ hform]
+              | int i => cases hrest
+              | none => cases hrest
+              | bool b => cases hrest
+        · -- adverbs
+          cases hlang : env.lang with
+          | fr =>
+            rw [hlang] at hrest
+            simp only [Bool.and_eq_true, beq_iff_eq] at hrest
+            obtain ⟨hnof, hsel⟩ := hrest
+            rw [hnof] at pf
+            rw [realTerm_Afr (Or.inr (p1.trans h_pos)) ((p2.trans h_lang).trans hlang) (p4.trans h_tab)
+              (p5.trans h_stem) pf (p7.trans h_w) htb (by rw [pg, pn]; exact hsel)]
+            simp [hdet _ hform]
+          | en =>
+            rw [hlang] at hrest
+            simp only [] at hrest
+            cases hov : optVal "f" e0.opts with
+            | none =>
+              rw [hov] at hrest pf
+              simp only [beq_iff_eq] at hrest
+              rw [realTerm_Aen_plain (Or.inr (p1.trans h_pos)) ((p2.trans h_lang).trans hlang) (p4.trans h_tab)
+                (p5.trans h_stem) pf (p7.trans h_w) htb]
+              have : t1.lemma = dropRight lemma tb.ending.length ++ d.val := by
+                rw [p3, h_lemma, hrest, stem_append_ending hend]
+              simp only [this]
+              simp [hdet _ hform]
+            | some fv =>
+              rw [hov] at hrest pf
+              cases fv with
+              | str fs =>
+                simp only [Bool.and_eq_true, decide_eq_true_eq, beq_iff_eq] at hrest
+                obtain ⟨⟨ha1, hb1⟩, hsel⟩ := hrest
+                rw [realTerm_Aen_f (Or.inr (p1.trans h_pos)) ((p2.trans h_lang).trans hlang) (p4.trans h_tab)
+                  (p5.trans h_stem) pf (p7.trans h_w) htb ha1 hb1 hsel]
+                simp [hdet _ hform]
+              | int i => cases hrest
+              | none => cases hrest
+              | bool b => cases hrest
+
+/-! ### completeness of the declension expansion -/
+
+theorem declLoop_complete {lang : Lang} {pos lemma radical : Str} {entry : PosEntry} :
+    ∀ (rows : List Row) (seen : List Str) (l : List Pair),
+    declLoop lang pos lemma entry radical rows seen = .ok l →
+    ∀ d ∈ rows, d.val ∉ seen → (∀ d' ∈ rows, d'.val = d.val → genExp lang d' pos lemma entry ≠ .ok none) →
+    ∃ e, (radical ++ d.val, e) ∈ l
+  | [], _, _, _, d, hd, _, _ => by cases hd
+  | d0 :: ds, seen, l, h, d, hd, hns, hgen => by
+    unfold declLoop at h
+    by_cases hs : seen.contains d0.val = true
+    · simp only [hs, if_true] at h
+      have hne : d ≠ d0 := by
+        intro he; subst he
+        exact hns (by simpa using hs)
+      have hd' : d ∈ ds := by
+        rcases List.mem_cons.mp hd with h1 | h1
+        · exact absurd h1 hne
+        · exact h1
+      exact declLoop_complete ds seen l h d hd' hns (fun d' hd'' hv => hgen d' (List.mem_cons_of_mem _ hd'') hv)
+    · simp only [hs] at h
+      simp only [Bool.false_eq_true, if_false] at h
+      split at h
+      · cases h
+      · rename_i r hr
+        split at h
+        · cases h
+        · rename_i rest hrest
+          by_cases hv : d0.val = d.val
+          · have hr' := hgen d0 List.mem_cons_self hv
+            cases r with
+            | none => exact absurd hr hr'
+            | some e =>
+              simp only [Except.ok.injEq] at h
+              subst h
+              rw [← hv]
+              exact ⟨e, List.mem_cons_self⟩
+          · have hd' : d ∈ ds := by
+              rcases List.mem_cons.mp hd with h1 | h1
+              · subst h1; exact absurd rfl hv
+              · exact h1
+            have hns' : d.val ∉ seen ++ [d0.val] := by
+              intro hm
+              rcases List.mem_append.mp hm with h1 | h1
+              · exact hns h1
+              · simp only [List.mem_singleton] at h1
+                exact hv h1.symm
+            obtain ⟨e, he⟩ := declLoop_complete ds _ rest hrest d hd' hns'
+              (fun d' hd'' hv' => hgen d' (List.mem_cons_of_mem _ hd'') hv')
+            cases r with
+            | none =>
+              simp only [Except.ok.injEq] at h
+              subst h
+              exact ⟨e, he⟩
+            | some e0 =>
+              simp only [Except.ok.injEq] at h
+              subst h
+              exact ⟨e, List.mem_cons_of_mem _ he⟩
+
+/-- `genExp` answers `None` only for the plural row of an English noun that the lexicon marks uncountable -/
+theorem genExp_none {lang : Lang} {d : Row} {pos lemma : Str} {entry : PosEntry}
+    (h : genExp lang d pos lemma entry = .ok none) :
+    lang = .en ∧ pos = "N".toList ∧ d.get .n = some (fvStr "p") ∧
+      lookup "cnt".toList entry = some (LV.str "no".toList) := by
+  unfold genExp genExpCore at h
+  by_cases hN : pos = "N".toList
+  · simp only [hN, if_true] at h
+    unfold genExpN at h
+    cases lang with
+    | en =>
+      simp only [] at h
+      repeat' split at h
+      all_goals (cases h)
+      rename_i dn hdn hp cnt c hc hno
+      exact ⟨rfl, hN, by rw [hdn, hp], by rw [hc, hno]⟩
+    | fr =>
+      simp only [] at h
+      repeat' split at h
+      all_goals cases h
+  · simp only [hN, if_false] at h
+    repeat' split at h
+    all_goals first
+      | cases h
+      | (cases hg : genExpA lang d (expInit pos lemma) <;> rw [hg] at h <;> cases h)
 
 end Pyrealb.Lemmatize
